@@ -25,7 +25,7 @@ ASSUMPTIONS = [
     "results are compared structurally: strings, booleans, indices, node lists as pre-order positions, error lists as (code, message, "
     "node position)",
 ]
-REQUIRED = ["trees_with_a_node_listed_by_two_parents", "trees_with_unregistered_nodes", "trees_whose_ids_resolve_to_another_import", "trees_deeper_than_recursion_limit", "imported_trees_with_default_namespace", "snapshots_compared", "second_pass_results_compared", "trees_needing_xml_escaping", "op:export.to_xml", "op:metapype_io.to_xml",
+REQUIRED = ["doubled_sibling_trees", "trees_with_a_node_listed_by_two_parents", "trees_with_unregistered_nodes", "trees_whose_ids_resolve_to_another_import", "trees_deeper_than_recursion_limit", "imported_trees_with_default_namespace", "snapshots_compared", "second_pass_results_compared", "trees_needing_xml_escaping", "op:export.to_xml", "op:metapype_io.to_xml",
             "op:validate.tree", "op:evaluate.tree", "op:Node.is_equal", "op:find_all_descendants", "op:metapype_io.to_json"]
 EXHAUSTIVE = {"quick": False, "thorough": False}
 
@@ -133,6 +133,12 @@ def operations(root, rng):
                 real.append(x.name)
                 x = x.parent
             paths.append(list(reversed(real)))
+        for real in (list(paths[1:2]) if n is root else []):
+            # steps that mean something in other path languages (wildcards, axes, positions, attributes): here they are names like any other
+            for special in ("*", "**", ".", "..", "", "//", "node()", "%", "?", ".*", real[-1] + "[1]", "@id", "*:" + real[-1], real[-1].upper()):
+                for at in {0, len(real) - 1}:
+                    paths.append(real[:at] + [special] + real[at + 1:])
+                paths.append(real + [special])
         for path in paths:
             add("find_single_node_by_path", lambda n=n, path=path: P(n.find_single_node_by_path(list(path))))
             add("find_all_nodes_by_path", lambda n=n, path=path: P(n.find_all_nodes_by_path(list(path))))
@@ -249,6 +255,14 @@ def with_history(ctx, rng, t, origin, k=None):
     return first, origin + "+imported-twice", [second]
 
 
+def depth_of(x):
+    d = 0
+    while x.parent is not None:
+        x = x.parent
+        d += 1
+    return d
+
+
 def needs_escaping(root):
     for n in snapshot.walk(root):
         for s in [n.content] + list(n.attributes.values()):
@@ -351,12 +365,24 @@ def run(ctx, params):
             ctx.count("vocabulary_sweep_trees")
             ctx.case(judge, ctx, t, f"vocabulary sweep: <{e}>")
             emlkit.discard(t)
-    # every element the library knows once as the root of a small valid tree
+    # ... and once more with every node of the first two levels below the root present twice (two keyword sets, two creators, two
+    # attribute lists - each with its own children): whatever pools, merges or counts siblings must leave them as they are
     for e in mrule.node_names():
         if gen.buildable(e):
-            t = gen.minimal_tree(e)
-            ctx.count("vocabulary_sweep_trees")
-            ctx.case(judge, ctx, t, f"vocabulary sweep: <{e}>")
+            t = gen.valid_tree(e, rng, 25) if e in ("eml", "dataset", "dataTable", "attribute", "project", "methods", "coverage") else gen.minimal_tree(e)
+            if e == "dataset":
+                for j in range(3):
+                    ks = Node("keywordSet")
+                    for w in range(j + 1):
+                        ks.add_child(Node("keyword", content=f"k{j}{w}"))
+                    ks.add_child(Node("keywordThesaurus", content=f"thesaurus {j}"))
+                    t.add_child(ks)
+            for level in (2, 1):
+                for x in [x for x in snapshot.walk(t) if depth_of(x) == level]:
+                    twin = x.copy()
+                    x.parent.add_child(twin, x.parent.children.index(x) + 1)
+            ctx.count("doubled_sibling_trees")
+            ctx.case(judge, ctx, t, f"vocabulary sweep, siblings doubled: <{e}>")
             emlkit.discard(t)
     # responsible parties identified through every spelling of the ORCID directory in circulation (read-only for evaluation too)
     for spelling in ("https://orcid.org", "https://orcid.org/", "http://orcid.org", "http://orcid.org/", "https://www.orcid.org", "https://www.orcid.org/",
